@@ -1844,3 +1844,10 @@ mod tests {
         assert!(weak_handle3.expired());
     }
 }
+
+// Verification hook (inert unless compiled by the Kani verifier, which alone sets cfg(kani)):
+// harnesses for the private items of this module live outside the repository.
+#[cfg(kani)]
+mod verif_kani {
+    include!(concat!(env!("CALLOOP_VERIF_DIR"), "/kx/incrate/loop_harness.rs"));
+}
